@@ -26,6 +26,7 @@ type Frame struct {
 	defers   []SV
 	callSite *ssa.Call // in the parent frame; nil for the root frame
 	params   []SV
+	iters    map[*ssa.Range]*Term // position of string iterators
 }
 
 type loopVisit struct {
@@ -76,6 +77,12 @@ func (st *State) clone() *State {
 			nf.loopSeen[k] = v
 		}
 		nf.defers = append([]SV(nil), f.defers...)
+		if f.iters != nil {
+			nf.iters = make(map[*ssa.Range]*Term, len(f.iters))
+			for k, v := range f.iters {
+				nf.iters[k] = v
+			}
+		}
 		n.frames[i] = &nf
 	}
 	if st.ghost != nil {
